@@ -119,10 +119,7 @@ func newYarnSpinnerCommand(command any) (YarnSpinnerCommand, error) {
 				errChan <- fmt.Errorf("command returned a nil chan")
 				return errChan
 			}
-			switch returnChan := outputParameters[0].Interface().(type) {
-			case <-chan error:
-				return returnChan
-			case chan error:
+			if returnChan, ok := outputParameters[0].Convert(typeErrChan).Interface().(<-chan error); ok {
 				return returnChan
 			}
 			errChan <- fmt.Errorf("command did not return a chan error like expected")
@@ -173,9 +170,11 @@ func checkCommandOutputParameters(commandType reflect.Type) (returnSignature, er
 
 var _ commandCaller = (*commandStorer)(nil)
 
+var typeErrChan = reflect.TypeOf((<-chan error)(nil))
+
 func isTypeErrChan(t reflect.Type) bool {
 	if t.Kind() != reflect.Chan {
 		return false
 	}
-	return t.Elem().ConvertibleTo(typeError)
+	return t.ConvertibleTo(typeErrChan)
 }
